@@ -593,6 +593,7 @@ func runC06(t *testing.T, c Case) kit.Verdict {
 	var mu sync.Mutex
 	reqCount := map[int]int{}
 	sentInvalid := map[int]bool{} // peer sent a block with the requested header that is invalid
+	validSent := map[string]int{} // "peer/hash" -> valid copies of that block sent so far
 	sentValid := map[int]bool{}
 	sentAnyInvalid := map[int]bool{} // peer sent some invalid block with a requested header
 	invalidBeforeValid := false
@@ -649,10 +650,18 @@ func runC06(t *testing.T, c Case) kit.Verdict {
 							}
 						}
 					}
+					// ... and only if the peer has not sent a valid
+					// copy of this block before: a surplus copy from an
+					// earlier response (duplicate) can complete this
+					// request's query before the invalid answer is
+					// looked at, which then goes unexamined.
 					mu.Lock()
+					vkey := fmt.Sprintf("%d/%v", pi, n.Hash)
+					earlierValid := validSent[vkey]
+					validSent[vkey] += nValid
 					if nInvalid > 0 {
 						sentAnyInvalid[pi] = true
-						if nValid == 0 {
+						if nValid == 0 && earlierValid == 0 {
 							sentInvalid[pi] = true
 						}
 						invalidBeforeValid = true
